@@ -23,6 +23,8 @@ type V1 struct {
 	all []*v1controller
 
 	existing bool
+	// shared: the directory of at least one controller was there before this handle was made
+	shared bool
 }
 
 func (c *V1) Open() (*os.File, error) {
@@ -112,6 +114,7 @@ func (c *V1) New(name string) (cg Cgroup, err error) {
 			if len(v1.all) == 0 {
 				v1.existing = true
 			}
+			v1.shared = true
 			continue
 		}
 		if err != nil {
